@@ -79,8 +79,8 @@ RECURSIVE Derive(_, _, _)
 Derive(pt, ch, k) == IF k = 0 THEN <<>>
                      ELSE LET cur == Derive(pt, ch, k - 1) IN NewGuessP(cur, pt[k], ch[k])
 
-RECURSIVE BagOfSeq(_)
-BagOfSeq(s) == IF s = <<>> THEN EmptyBag ELSE SetToBag({Head(s)}) (+) BagOfSeq(Tail(s))
+(* bag of the elements of a sequence, without recursion (long sequences overflow TLC's stack) *)
+BagOfSeq(s) == [x \in { s[i] : i \in DOMAIN s } |-> Cardinality({ i \in DOMAIN s : s[i] = x })]
 BagOfChoiceTuples(pt, S) == LET RECURSIVE B(_)
                            B(T) == IF T = {} THEN EmptyBag
                                    ELSE LET c == CHOOSE c \in T : TRUE IN
